@@ -54,6 +54,11 @@ var c16LineFaults = []struct{ Name, Line string }{
 	{"include with a stray argument", "##!> include inc extra"},
 	{"unknown cmdline type", "##!> cmdline beos"},
 	{"cmdline without type", "##!> cmdline"},
+	{"cmdline block with the type in capitals", "##!> cmdline UNIX\nls\n##!<"},
+	{"cmdline block with the type capitalised", "##!> cmdline Windows\ndir\n##!<"},
+	{"cmdline block with a number as type", "##!> cmdline 2\nls\n##!<"},
+	{"cmdline block without type", "##!> cmdline\nls\n##!<"},
+	{"cmdline block of unknown type", "##!> cmdline beos\nls\n##!<"},
 	{"extra end marker", "##!<"},
 	{"missing end marker", "##!> assemble"},
 	{"unknown stored name", "##!=> neverstored"},
